@@ -7,6 +7,7 @@ Import ListNotations.
 Require Import Amoco.C14.Model Amoco.C16.Layout Amoco.C16.Proofs Amoco.C16.Fields Amoco.C16.FieldsProofs.
 Require Amoco.C16.Sleb.
 Require Amoco.C16.Uleb.
+Require Amoco.C16.UlebAgree.
 Open Scope Z_scope.
 
 (* Natural alignment: every field of a non-packed structure sits at the least offset that is a multiple of its
@@ -93,6 +94,11 @@ Theorem C16_uleb128_no_redundant_group : forall f v, Uleb.ufits f v -> 0 < v ->
   last (Uleb.uleb_enc (S f) v) 0 <> 0 /\ last (Uleb.uleb_enc (S f) v) 0 < 128.
 Proof. exact Uleb.uleb_last_group_nonzero. Qed.
 Print Assumptions C16_uleb128_no_redundant_group.
+(* the codec of C16_uleb128_roundtrip and the one evaluated against the implementation are the same functions *)
+Theorem C16_uleb128_models_agree : (forall fuel n, write_uleb fuel n = Uleb.uleb_enc fuel n) /\
+  (forall bs s a c, read_uleb s a (Z.of_nat c) bs = (fst (Uleb.uleb_dec bs s a c), Z.of_nat (snd (Uleb.uleb_dec bs s a c)))).
+Proof. split; [exact UlebAgree.write_uleb_is_uleb_enc|exact UlebAgree.read_uleb_is_uleb_dec]. Qed.
+Print Assumptions C16_uleb128_models_agree.
 Example C16_uleb128_nonvacuous :
   Uleb.uleb_enc 40 0 = [0] /\ Uleb.uleb_enc 40 127 = [127] /\ Uleb.uleb_enc 40 128 = [128; 1] /\
   Uleb.uleb_enc 40 624485 = [229; 142; 38] /\ Uleb.uleb_dec [229; 142; 38; 7] 0 0 0 = (624485, 3%nat) /\ Uleb.ufits 2 624485.
